@@ -86,6 +86,8 @@ class Lib:
     def getattr(self, ctx, o, name: str):
         if isinstance(o, V.PathV):
             return self.path_attr(ctx, o, name)
+        if isinstance(o, V.JoinedStr):
+            return V.Builtin("method." + name, bound=o)
         if isinstance(o, V.FractionV):
             if name == "denominator":
                 d = self.e.uf("frac!den", z3.RealSort(), z3.IntSort())(o.term)
@@ -425,6 +427,13 @@ class Lib:
                 return SymSeq(arr, z3.IntVal(len(v.items)), kind, fresh=True)
             raise EngineLimit("concatenation of a symbolic list with %r" % (v,))
 
+        if isinstance(a, SymSeq) and isinstance(b, PyList) and a.kind is V.Str:
+            # xs + [y, ...] for a list of strings: the appended elements are stored behind the last one (same sequence as
+            # the general form below, but a term the solvers handle without beta-reduction)
+            arr = a.arr
+            for k_, it in enumerate(b.items):
+                arr = z3.Store(arr, a.length + k_, V.Str.unwrap(it))
+            return SymSeq(arr, a.length + len(b.items), a.kind, fresh=True)
         a, b = as_seq(a), as_seq(b)
         i = z3.FreshConst(z3.IntSort(), "i")
         arr = z3.Lambda([i], z3.If(i < a.length, z3.Select(a.arr, i), z3.Select(b.arr, i - a.length)))
@@ -1311,6 +1320,8 @@ class Lib:
     bi_pathlib_PurePath = bi_pathlib_Path
 
     def path_attr(self, ctx, o, name):
+        if name in getattr(o, "attrs", {}):
+            return o.attrs[name]
         P, S, I_ = V.PathSort, z3.StringSort(), z3.IntSort()
         if name == "parent":
             return V.PathV(self.e.uf("path!parent", P, P)(o.term))
@@ -1536,6 +1547,25 @@ class Lib:
         for x in xs[1:]:
             acc = z3.Concat(acc, V.Str.unwrap(o), V.Str.unwrap(x))
         return acc
+
+    def m_str_isascii(self, ctx, o):
+        if isinstance(o, str):
+            return o.isascii()
+        from . import strmodel as _sm
+
+        return _sm.str_isascii(o)
+
+    def m_str_isdigit(self, ctx, o):
+        if isinstance(o, str):
+            return o.isdigit()
+        from . import strmodel as _sm
+
+        return _sm.str_isdigit(o)
+
+    def m_other_split(self, ctx, o, sep=None):
+        if isinstance(o, V.JoinedStr) and isinstance(sep, str) and sep == o.sep:
+            return PyList(list(o.parts))
+        raise EngineLimit("split of %r" % (o,))
 
     def m_str_split(self, ctx, o, sep=None):
         if isinstance(o, str) and isinstance(sep, str):
